@@ -430,67 +430,74 @@ Qed.
 (* ================================================================ the loader: one decl at a time *)
 
 (* the body of the loop of run_decls *)
-Definition step (fuel depth : nat) (wd : bytes) (fs : files) (a : scopes * mstate) (d : decl) : scopes * mstate :=
+Definition step (fuel : nat) (stack : list bytes) (wd : bytes) (fs : files) (a : scopes * mstate) (d : decl)
+  : scopes * mstate :=
   let '(sc, st) := a in
   match d with
   | DInclude is_inc ptext =>
     let '(path, es) := eval_in_scope sc ptext in
     let st1 := add_errors st es in
-    if Nat.leb max_include_depth depth then (sc, add_errors st1 [EIncludeTooDeep]) else
+    let apath := make_absolute wd path in
+    if Nat.leb max_include_depth (length stack) then (sc, add_errors st1 [EIncludeTooDeep])
+    else if mem_bytes apath stack then (sc, add_errors st1 [ERecursiveInclude])
+    else
     match fuel with
     | O => (sc, add_errors st1 [EOutOfFuel])
     | S f =>
-      match find_file fs (make_absolute wd path) with
+      match find_file fs apath with
       | None => (sc, add_errors st1 [EMissingFile])
       | Some ds' =>
-        if is_inc then run_decls f (S depth) wd fs ds' (sc, st1)
-        else (sc, snd (run_decls f (S depth) wd fs ds' (empty_frame :: sc, st1)))
+        if is_inc then run_decls f (apath :: stack) wd fs ds' (sc, st1)
+        else (sc, snd (run_decls f (apath :: stack) wd fs ds' (empty_frame :: sc, st1)))
       end
     end
   | _ => run_simple wd d sc st
   end.
 
-Lemma run_decls_fold fuel depth wd fs ds acc :
-  run_decls fuel depth wd fs ds acc = fold_left (step fuel depth wd fs) ds acc.
+Lemma run_decls_fold fuel stack wd fs ds acc :
+  run_decls fuel stack wd fs ds acc = fold_left (step fuel stack wd fs) ds acc.
 Proof. destruct fuel; reflexivity. Qed.
 
-Lemma run_decls_nil fuel depth wd fs acc : run_decls fuel depth wd fs [] acc = acc.
+Lemma run_decls_nil fuel stack wd fs acc : run_decls fuel stack wd fs [] acc = acc.
 Proof. rewrite run_decls_fold. reflexivity. Qed.
 
-Lemma run_decls_cons fuel depth wd fs d ds acc :
-  run_decls fuel depth wd fs (d :: ds) acc = run_decls fuel depth wd fs ds (step fuel depth wd fs acc d).
+Lemma run_decls_cons fuel stack wd fs d ds acc :
+  run_decls fuel stack wd fs (d :: ds) acc = run_decls fuel stack wd fs ds (step fuel stack wd fs acc d).
 Proof. rewrite !run_decls_fold. reflexivity. Qed.
 
-Lemma run_decls_app fuel depth wd fs ds1 ds2 acc :
-  run_decls fuel depth wd fs (ds1 ++ ds2) acc = run_decls fuel depth wd fs ds2 (run_decls fuel depth wd fs ds1 acc).
+Lemma run_decls_app fuel stack wd fs ds1 ds2 acc :
+  run_decls fuel stack wd fs (ds1 ++ ds2) acc = run_decls fuel stack wd fs ds2 (run_decls fuel stack wd fs ds1 acc).
 Proof. rewrite !run_decls_fold. apply fold_left_app. Qed.
 
 (* ---------------------------------------------------------------- include shares the scope, subninja nests *)
 
+(* the three tests of enterFile pass: nesting below the bound, file not being loaded already, file readable *)
+Definition enterable (stack : list bytes) (wd : bytes) (fs : files) (path : bytes) (ds : list decl) : Prop :=
+  (length stack < max_include_depth)%nat /\ mem_bytes (make_absolute wd path) stack = false /\
+  find_file fs (make_absolute wd path) = Some ds.
+
 (* `include`: the decls of the included file are processed in place, in the SAME scope, and what they leave in
    the scope and in the manifest is what the rest of the including file sees *)
-Theorem include_shares_scope f depth wd fs sc st ptext path es ds rest :
-  eval_in_scope sc ptext = (path, es) -> (depth < max_include_depth)%nat ->
-  find_file fs (make_absolute wd path) = Some ds ->
-  run_decls (S f) depth wd fs (DInclude true ptext :: rest) (sc, st) =
-  run_decls (S f) depth wd fs rest (run_decls f (S depth) wd fs ds (sc, add_errors st es)).
+Theorem include_shares_scope f stack wd fs sc st ptext path es ds rest :
+  eval_in_scope sc ptext = (path, es) -> enterable stack wd fs path ds ->
+  run_decls (S f) stack wd fs (DInclude true ptext :: rest) (sc, st) =
+  run_decls (S f) stack wd fs rest (run_decls f (make_absolute wd path :: stack) wd fs ds (sc, add_errors st es)).
 Proof.
-  intros He Hd Hf. rewrite run_decls_cons. f_equal. cbn [step]. rewrite He.
-  apply Nat.leb_gt in Hd. rewrite Hd, Hf. reflexivity.
+  intros He [Hd [Hm Hf]]. rewrite run_decls_cons. f_equal. cbn [step]. rewrite He.
+  apply Nat.leb_gt in Hd. rewrite Hd, Hm, Hf. reflexivity.
 Qed.
 
 (* `subninja`: the decls of the file are processed in a fresh scope whose parent is the current one; afterwards
    the current scope is exactly what it was (no binding and no rule of the file is visible), only the manifest
    (commands, nodes, pools, defaults, errors) keeps what the file added *)
-Theorem subninja_nests f depth wd fs sc st ptext path es ds rest :
-  eval_in_scope sc ptext = (path, es) -> (depth < max_include_depth)%nat ->
-  find_file fs (make_absolute wd path) = Some ds ->
-  run_decls (S f) depth wd fs (DInclude false ptext :: rest) (sc, st) =
-  run_decls (S f) depth wd fs rest
-            (sc, snd (run_decls f (S depth) wd fs ds (empty_frame :: sc, add_errors st es))).
+Theorem subninja_nests f stack wd fs sc st ptext path es ds rest :
+  eval_in_scope sc ptext = (path, es) -> enterable stack wd fs path ds ->
+  run_decls (S f) stack wd fs (DInclude false ptext :: rest) (sc, st) =
+  run_decls (S f) stack wd fs rest
+            (sc, snd (run_decls f (make_absolute wd path :: stack) wd fs ds (empty_frame :: sc, add_errors st es))).
 Proof.
-  intros He Hd Hf. rewrite run_decls_cons. f_equal. cbn [step]. rewrite He.
-  apply Nat.leb_gt in Hd. rewrite Hd, Hf. reflexivity.
+  intros He [Hd [Hm Hf]]. rewrite run_decls_cons. f_equal. cbn [step]. rewrite He.
+  apply Nat.leb_gt in Hd. rewrite Hd, Hm, Hf. reflexivity.
 Qed.
 
 (* whatever a file does, it only changes the innermost frame: the enclosing scopes are out of its reach *)
@@ -506,41 +513,243 @@ Proof.
   - eexists; reflexivity.
 Qed.
 
-Lemma run_decls_tail wd fs : forall fuel depth ds fr sc st,
-  exists fr', fst (run_decls fuel depth wd fs ds (fr :: sc, st)) = fr' :: sc.
+Lemma run_decls_tail wd fs : forall fuel stack ds fr sc st,
+  exists fr', fst (run_decls fuel stack wd fs ds (fr :: sc, st)) = fr' :: sc.
 Proof.
-  induction fuel as [|f IHf]; intros depth ds; induction ds as [|d ds IHd]; intros fr sc st.
+  induction fuel as [|f IHf]; intros stack ds; induction ds as [|d ds IHd]; intros fr sc st.
   - rewrite run_decls_nil. eexists; reflexivity.
   - rewrite run_decls_cons.
-    assert (Hs : exists fr1 st1, step 0 depth wd fs (fr :: sc, st) d = (fr1 :: sc, st1)).
+    assert (Hs : exists fr1 st1, step 0 stack wd fs (fr :: sc, st) d = (fr1 :: sc, st1)).
     { destruct d as [n v|ps|i p|outs r ex im oo bs|n bs|n bs|c];
         try (match goal with |- exists _ _, step _ _ _ _ _ ?d = _ => destruct (run_simple_tail wd d fr sc st) as [fr1 H1] end;
              cbn [step]; revert H1;
              match goal with |- _ -> exists _ _, ?X = _ => destruct X as [sc1 st1] end;
              cbn [fst]; intros H1; subst sc1; eexists; eexists; reflexivity).
       unfold step. cbv beta iota zeta. destruct (eval_in_scope (fr :: sc) p) as [path es].
-      destruct (Nat.leb max_include_depth depth); eexists; eexists; reflexivity. }
+      destruct (Nat.leb max_include_depth (length stack)); [eexists; eexists; reflexivity|].
+      destruct (mem_bytes (make_absolute wd path) stack); eexists; eexists; reflexivity. }
     destruct Hs as [fr1 [st1 Hs]]. rewrite Hs. apply IHd.
   - rewrite run_decls_nil. eexists; reflexivity.
   - rewrite run_decls_cons.
-    assert (Hs : exists fr1 st1, step (S f) depth wd fs (fr :: sc, st) d = (fr1 :: sc, st1)).
+    assert (Hs : exists fr1 st1, step (S f) stack wd fs (fr :: sc, st) d = (fr1 :: sc, st1)).
     { destruct d as [n v|ps|i p|outs r ex im oo bs|n bs|n bs|c];
         try (match goal with |- exists _ _, step _ _ _ _ _ ?d = _ => destruct (run_simple_tail wd d fr sc st) as [fr1 H1] end;
              cbn [step]; revert H1;
              match goal with |- _ -> exists _ _, ?X = _ => destruct X as [sc1 st1] end;
              cbn [fst]; intros H1; subst sc1; eexists; eexists; reflexivity).
       unfold step. cbv beta iota zeta. destruct (eval_in_scope (fr :: sc) p) as [path es].
-      destruct (Nat.leb max_include_depth depth); [eexists; eexists; reflexivity|].
+      destruct (Nat.leb max_include_depth (length stack)); [eexists; eexists; reflexivity|].
+      destruct (mem_bytes (make_absolute wd path) stack); [eexists; eexists; reflexivity|].
       destruct (find_file fs (make_absolute wd path)) as [ds'|]; [|eexists; eexists; reflexivity].
       destruct i; [|eexists; eexists; reflexivity].
-      destruct (IHf (S depth) ds' fr sc (add_errors st es)) as [fr1 H1].
-      destruct (run_decls f (S depth) wd fs ds' (fr :: sc, add_errors st es)) as [sc1 st1].
-      cbn [fst] in H1. subst sc1. eexists; eexists; reflexivity. }
+      destruct (IHf (make_absolute wd path :: stack) ds' fr sc (add_errors st es)) as [fr1 H1].
+      exists fr1, (snd (run_decls f (make_absolute wd path :: stack) wd fs ds' (fr :: sc, add_errors st es))).
+      rewrite <- H1. apply surjective_pairing. }
     destruct Hs as [fr1 [st1 Hs]]. rewrite Hs. apply IHd.
 Qed.
 
 (* the parent's bindings and rules are the same before, during and after a subninja file, for every file content:
    inside, the enclosing scopes are the tail of the scope list at every point *)
-Theorem subninja_cannot_touch_parent wd fs fuel depth ds sc st :
-  exists fr', fst (run_decls fuel depth wd fs ds (empty_frame :: sc, st)) = fr' :: sc.
+Theorem subninja_cannot_touch_parent wd fs fuel stack ds sc st :
+  exists fr', fst (run_decls fuel stack wd fs ds (empty_frame :: sc, st)) = fr' :: sc.
 Proof. apply run_decls_tail. Qed.
+
+(* ================================================================ eval_total: the loader never runs out of fuel *)
+
+Lemma eval_paths_nf wd sc e : e <> EOutOfFuel ->
+  forall toks nodes, nf (p_errs (eval_paths wd sc e toks nodes)).
+Proof.
+  intros He. induction toks as [|t ts IH]; intros nodes; [apply nf_nil|].
+  cbn [eval_paths]. pose proof (eval_in_scope_nf sc t) as Hn.
+  destruct (eval_in_scope sc t) as [p es]. cbn [snd] in Hn.
+  destruct (find_or_create_node wd nodes p) as [nodes1 on].
+  specialize (IH nodes1). destruct (eval_paths wd sc e ts nodes1) as [[ns nodes2] es3].
+  unfold p_errs in *. cbn [snd] in IH.
+  destruct on as [n|]; cbn [snd]; repeat (apply nf_app; split); try exact Hn; try exact IH; try apply nf_nil.
+  - destruct (is_nil p); [apply nf_one; exact He | apply nf_nil].
+  - destruct (is_nil p); [apply nf_one; exact He | apply nf_nil].
+  - apply nf_one. discriminate.
+Qed.
+
+Lemma build_bindings_nf sc : forall binds params, nf (snd (build_bindings sc binds params)).
+Proof.
+  induction binds as [|[n v|c] bs IH]; intros params; cbn [build_bindings]; [apply nf_nil| |].
+  - pose proof (eval_in_scope_nf sc v) as Hn. destruct (eval_in_scope sc v) as [val es1]. cbn [snd] in Hn.
+    specialize (IH (aset n val params)). destruct (build_bindings sc bs (aset n val params)) as [p es2].
+    cbn [snd] in *. apply nf_app. split; assumption.
+  - specialize (IH params). destruct (build_bindings sc bs params) as [p es]. cbn [snd] in *.
+    apply nf_cons; [discriminate | exact IH].
+Qed.
+
+Lemma deps_of_nf a b : nf (snd (deps_of a b)).
+Proof.
+  unfold deps_of.
+  destruct (is_nil a); [|destruct (bytes_eqb a nm_gcc); [|destruct (bytes_eqb a nm_msvc)]];
+    destruct (is_nil b); cbn [negb snd app]; try apply nf_nil; repeat (apply nf_cons; [discriminate|]); apply nf_nil.
+Qed.
+
+Lemma pool_of_nf pools v : nf (snd (pool_of pools v)).
+Proof.
+  unfold pool_of. destruct (is_nil v); [apply nf_nil|].
+  destruct (aget v pools); [apply nf_nil | apply nf_one; discriminate].
+Qed.
+
+Lemma rsp_of_nf wd v c : nf (snd c) -> nf (snd (rsp_of wd v c)).
+Proof.
+  intros H. unfold rsp_of. destruct (is_nil v); [apply nf_nil|].
+  destruct (normalize_path wd v); [exact H | apply nf_nil].
+Qed.
+
+Lemma end_build_nf wd sc pools rn rule outs ex im oo params :
+  nf (snd (end_build wd sc pools rn rule outs ex im oo params)).
+Proof.
+  unfold end_build. cbn [snd].
+  repeat (apply nf_app; split); try apply lookup_named_nf; try apply deps_of_nf; try apply pool_of_nf.
+  apply rsp_of_nf. apply lookup_named_nf.
+Qed.
+
+(* the errors of st' are those of st followed by errors none of which is EOutOfFuel *)
+Definition grows (st st' : mstate) : Prop := exists es, m_errors st' = m_errors st ++ es /\ nf es.
+
+Lemma grows_refl st : grows st st.
+Proof. exists []. split; [rewrite app_nil_r; reflexivity | apply nf_nil]. Qed.
+
+Lemma grows_trans a b c : grows a b -> grows b c -> grows a c.
+Proof.
+  intros [e1 [H1 N1]] [e2 [H2 N2]]. exists (e1 ++ e2). split; [rewrite H2, H1, app_assoc; reflexivity|].
+  apply nf_app; split; assumption.
+Qed.
+
+Lemma grows_add st es : nf es -> grows st (add_errors st es).
+Proof. intros H. exists es. split; [reflexivity | exact H]. Qed.
+
+Lemma run_build_grows wd sc st outs r ex im oo bs : grows st (run_build wd sc st outs r ex im oo bs).
+Proof.
+  unfold run_build. eexists. split; [cbn [add_command add_errors with_nodes m_errors]; reflexivity|].
+  apply nf_app; split.
+  { unfold resolve_rule. destruct (lookup_rule sc r); [apply nf_nil | apply nf_one; discriminate]. }
+  apply nf_app; split; [apply eval_paths_nf; discriminate|].
+  apply nf_app; split; [apply eval_paths_nf; discriminate|].
+  apply nf_app; split; [apply eval_paths_nf; discriminate|].
+  apply nf_app; split; [apply eval_paths_nf; discriminate|].
+  apply nf_app; split; [apply build_bindings_nf | apply end_build_nf].
+Qed.
+
+Lemma pool_bindings_nf sc : forall binds d, nf (snd (pool_bindings sc binds d)).
+Proof.
+  induction binds as [|[n v|c] bs IH]; intros d; cbn [pool_bindings]; [apply nf_nil| |].
+  - pose proof (eval_in_scope_nf sc v) as Hn. destruct (eval_in_scope sc v) as [val es1]. cbn [snd] in Hn.
+    destruct (bytes_eqb n nm_depth).
+    + destruct (parse_depth val) as [d1|].
+      * specialize (IH d1). destruct (pool_bindings sc bs d1) as [d2 es3]. cbn [snd app] in *.
+        apply nf_app; split; [exact Hn | exact IH].
+      * specialize (IH d). destruct (pool_bindings sc bs d) as [d2 es3]. cbn [snd] in *.
+        apply nf_app; split; [exact Hn|]. apply nf_app; split; [apply nf_one; discriminate | exact IH].
+    + specialize (IH d). destruct (pool_bindings sc bs d) as [d2 es3]. cbn [snd] in *.
+      apply nf_app; split; [exact Hn|]. apply nf_app; split; [apply nf_one; discriminate | exact IH].
+  - specialize (IH d). destruct (pool_bindings sc bs d) as [d2 es]. cbn [snd] in *.
+    apply nf_cons; [discriminate | exact IH].
+Qed.
+
+Lemma run_pool_grows sc st n bs : grows st (run_pool sc st n bs).
+Proof.
+  unfold run_pool. pose proof (pool_bindings_nf sc bs 0) as Hn.
+  destruct (pool_bindings sc bs 0) as [depth e1]. cbn [snd] in Hn.
+  apply grows_add. apply nf_app; split; [|apply nf_app; split; [exact Hn|]].
+  - destruct (aget n (m_pools st)); [apply nf_one; discriminate | apply nf_nil].
+  - destruct (depth =? 0); [apply nf_one; discriminate | apply nf_nil].
+Qed.
+
+Lemma rule_bindings_nf : forall binds r, nf (snd (rule_bindings binds r)).
+Proof.
+  induction binds as [|[n v|c] bs IH]; intros r; cbn [rule_bindings]; [apply nf_nil| |].
+  - destruct (is_rule_var_name n); [apply IH|].
+    specialize (IH r). destruct (rule_bindings bs r) as [r1 es]. cbn [snd] in *.
+    apply nf_cons; [discriminate | exact IH].
+  - specialize (IH r). destruct (rule_bindings bs r) as [r1 es]. cbn [snd] in *.
+    apply nf_cons; [discriminate | exact IH].
+Qed.
+
+Lemma run_rule_grows sc st n bs : grows st (snd (run_rule sc st n bs)).
+Proof.
+  unfold run_rule. pose proof (rule_bindings_nf bs []) as Hn.
+  destruct (rule_bindings bs []) as [r e1]. cbn [snd] in *.
+  apply grows_add. apply nf_app; split; [|apply nf_app; split; [exact Hn|]].
+  - destruct (find_rule sc n); [apply nf_one; discriminate | apply nf_nil].
+  - destruct (aget nm_command r); [apply nf_nil | apply nf_one; discriminate].
+Qed.
+
+Lemma run_default_grows wd sc : forall ps st, grows st (run_default wd sc st ps).
+Proof.
+  induction ps as [|t ps IH]; intros st; cbn [run_default]; [apply grows_refl|].
+  pose proof (eval_in_scope_nf sc t) as Hn. destruct (eval_in_scope sc t) as [p es]. cbn [snd] in Hn.
+  apply (grows_trans _ (add_errors st es)); [apply grows_add; exact Hn|].
+  destruct (find_node wd (m_nodes (add_errors st es)) p) as [n|].
+  - eapply grows_trans; [|apply IH]. exists []. split; [cbn; rewrite app_nil_r; reflexivity | apply nf_nil].
+  - eapply grows_trans; [|apply IH]. apply grows_add. apply nf_one. discriminate.
+Qed.
+
+Lemma run_simple_grows wd d sc st : grows st (snd (run_simple wd d sc st)).
+Proof.
+  destruct d as [n v|ps|i p|outs r ex im oo bs|n bs|n bs|c]; cbn [run_simple].
+  - pose proof (eval_in_scope_nf sc v) as Hn. destruct (eval_in_scope sc v) as [val es]. cbn [snd] in *.
+    apply grows_add. exact Hn.
+  - apply run_default_grows.
+  - apply grows_refl.
+  - apply run_build_grows.
+  - apply run_pool_grows.
+  - apply run_rule_grows.
+  - apply grows_add. apply nf_one. discriminate.
+Qed.
+
+Lemma run_decls_grows wd fs : forall fuel stack ds sc st,
+  (max_include_depth < fuel + length stack)%nat -> grows st (snd (run_decls fuel stack wd fs ds (sc, st))).
+Proof.
+  induction fuel as [|f IHf]; intros stack ds; induction ds as [|d ds IHd]; intros sc st Hlen.
+  - rewrite run_decls_nil. apply grows_refl.
+  - rewrite run_decls_cons.
+    assert (Hs : grows st (snd (step 0 stack wd fs (sc, st) d))).
+    { destruct d as [n v|ps|i p|outs r ex im oo bs|n bs|n bs|c]; try (cbn [step]; apply run_simple_grows).
+      unfold step. cbv beta iota zeta.
+      pose proof (eval_in_scope_nf sc p) as Hn. destruct (eval_in_scope sc p) as [path es]. cbn [snd] in Hn.
+      destruct (Nat.leb max_include_depth (length stack)) eqn:El.
+      - cbn [snd]. eapply grows_trans; [apply grows_add; exact Hn | apply grows_add; apply nf_one; discriminate].
+      - apply Nat.leb_gt in El. cbn [plus] in Hlen. lia. }
+    destruct (step 0 stack wd fs (sc, st) d) as [sc1 st1]. cbn [snd] in Hs.
+    eapply grows_trans; [exact Hs | apply IHd; exact Hlen].
+  - rewrite run_decls_nil. apply grows_refl.
+  - rewrite run_decls_cons.
+    assert (Hs : grows st (snd (step (S f) stack wd fs (sc, st) d))).
+    { destruct d as [n v|ps|i p|outs r ex im oo bs|n bs|n bs|c]; try (cbn [step]; apply run_simple_grows).
+      unfold step. cbv beta iota zeta.
+      pose proof (eval_in_scope_nf sc p) as Hn. destruct (eval_in_scope sc p) as [path es]. cbn [snd] in Hn.
+      destruct (Nat.leb max_include_depth (length stack)) eqn:El.
+      { cbn [snd]. eapply grows_trans; [apply grows_add; exact Hn | apply grows_add; apply nf_one; discriminate]. }
+      destruct (mem_bytes (make_absolute wd path) stack).
+      { cbn [snd]. eapply grows_trans; [apply grows_add; exact Hn | apply grows_add; apply nf_one; discriminate]. }
+      destruct (find_file fs (make_absolute wd path)) as [ds'|].
+      2:{ cbn [snd]. eapply grows_trans; [apply grows_add; exact Hn | apply grows_add; apply nf_one; discriminate]. }
+      assert (Hl : (max_include_depth < f + length (make_absolute wd path :: stack))%nat) by (cbn [length]; lia).
+      destruct i; [|cbn [snd]]; (eapply grows_trans; [apply grows_add; exact Hn | apply IHf; exact Hl]). }
+    destruct (step (S f) stack wd fs (sc, st) d) as [sc1 st1]. cbn [snd] in Hs.
+    eapply grows_trans; [exact Hs | apply IHd; exact Hlen].
+Qed.
+
+Lemma has_out_of_fuel_false es : nf es -> has_out_of_fuel es = false.
+Proof.
+  intros H. unfold has_out_of_fuel. destruct (existsb _ es) eqn:E; [|reflexivity].
+  apply existsb_exists in E. destruct E as [e [Hin He]]. destruct e; try discriminate. contradiction.
+Qed.
+
+(* eval_total: for EVERY file map and every main file, with fuel 64 (the include bound of the code) or more the
+   model never reports EOutOfFuel - neither from the include recursion nor from a rule-variable expansion *)
+Theorem eval_total fuel wd fs main : (max_include_depth <= fuel)%nat ->
+  has_out_of_fuel (mf_errors (load fuel wd fs main)) = false.
+Proof.
+  intros Hf. unfold load. destruct (find_file fs (make_absolute wd main)) as [ds|].
+  - pose proof (run_decls_grows wd fs fuel [make_absolute wd main] ds init_scopes init_state) as Hg.
+    destruct (run_decls fuel [make_absolute wd main] wd fs ds (init_scopes, init_state)) as [sc st].
+    cbn [mf_errors]. cbn [snd length] in Hg. destruct Hg as [es [He Hn]]; [lia|].
+    apply has_out_of_fuel_false. rewrite He. cbn [init_state m_errors app]. exact Hn.
+  - reflexivity.
+Qed.
